@@ -7,7 +7,8 @@ package system
 // Reads one scenario per line from $VERIF_IN (JSON), drives the REAL governance code the way
 // chain.executeTx/executeGovernanceTx does for a TxType_GOVERNANCE transaction (fresh sender /
 // receiver AccountState copies and a freshly opened system ContractState per tx; PutState +
-// StageContractState only on success; nothing written on error), and after every operation
+// StageContractState only on success; BlockState snapshot rolled back on error as
+// chain.NewTxExecutor does), and after every operation
 // dumps the implementation's own governance state to $VERIF_OUT (one JSON line per scenario).
 //
 // Block boundary ("block" op) = BlockState.Update + Commit + ChainStateDB.UpdateRoot +
@@ -148,6 +149,8 @@ func vgErrClass(err error) string {
 		return "notsupported"
 	case strings.Contains(s, "invalid id"):
 		return "invalidid"
+	case strings.HasPrefix(s, "the number of args less"):
+		return "toofew"
 	}
 	return "other:" + s
 }
@@ -296,10 +299,16 @@ func (e *vgEnv) dump(errc string) *vgDump {
 
 // one governance transaction, executed like chain.executeTx does (see file comment)
 func (e *vgEnv) execOn(bs *state.BlockState, op *vgOp) (errc string, ev string, pan string) {
+	// chain.NewTxExecutor: snapshot the block state, roll it back when the tx fails (the
+	// system ContractState shares its storage buffer with the state DB cache once staged)
+	snap := bs.Snapshot()
 	defer func() {
 		if r := recover(); r != nil {
 			pan = fmt.Sprint(r)
 			errc = "panic"
+		}
+		if errc != "ok" {
+			bs.Rollback(snap)
 		}
 	}()
 	acc := e.addrs[op.Who]
